@@ -226,10 +226,16 @@ FRet(f) == /\ pc[f] = "ret" /\ Go(f, "done")
 (* sync.Once: the first caller runs the body, later callers wait until the body has returned and then *)
 (* return nil (their own ctx is never looked at).  The body sets the flag, starts the helper goroutine *)
 (* and waits for it or for ctx.Done().                                                                 *)
+(* The call begins (SCall: what the caller has seen so far is its snapshot), THEN it reaches sync.Once (SOnce): *)
+(* the caller that gets there first runs the body -- not necessarily the one whose call began first (observed   *)
+(* on the real code by the implementation-level trace validation: `bsp.sd.stopped` passed by a later caller).  *)
 SCall(s) == /\ pc[s] = "idle"
             /\ mon' = [mon EXCEPT !.snapS[s] = mon.returnedEnd, !.sdCalled = TRUE]
-            /\ Go(s, IF \E o \in Stoppers : pc[o] \notin {"idle", "oncewait"} THEN "oncewait" ELSE "set")
+            /\ Go(s, "once")
             /\ UNCHANGED proto
+SOnce(s) == /\ pc[s] = "once"
+            /\ Go(s, IF \E o \in Stoppers : pc[o] \notin {"idle", "once", "oncewait"} THEN "oncewait" ELSE "set")
+            /\ UNCHANGED <<proto, mon>>
 SSet(s) == /\ pc[s] = "set" /\ stopped' = TRUE /\ Go(s, "waitdone") /\ hs' = "close"
            /\ UNCHANGED <<queue, batch, mutex, dropped, stopCh, flushed, pidx, wret, wtmp, hx, hres, expired, err, mon>>
 HClose == /\ hs = "close" /\ stopCh' = TRUE /\ hs' = "wait"
@@ -244,7 +250,7 @@ SCtx(s) == /\ pc[s] = "waitdone" /\ s \in expired /\ Go(s, "ret") /\ err' = [err
 (* Before: the body itself waited (SWait / SCtx by the first caller), later callers returned nil as soon  *)
 (* as the body had returned.                                                                              *)
 SOnceWait(s) == /\ pc[s] = "oncewait"
-                /\ IF SDWaitFix THEN (\E o \in Stoppers : pc[o] \notin {"idle", "set", "oncewait"}) /\ Go(s, "waitdone")
+                /\ IF SDWaitFix THEN (\E o \in Stoppers : pc[o] \notin {"idle", "once", "set", "oncewait"}) /\ Go(s, "waitdone")
                                ELSE (\E o \in Stoppers : pc[o] \in {"ret", "done"}) /\ Go(s, "ret")
                 /\ UNCHANGED <<proto, mon>>
 SRet(s) == /\ pc[s] = "ret" /\ Go(s, "done")
@@ -268,7 +274,7 @@ Next == \/ \E p \in Producers : PCall(p) \/ PCheck(p) \/ PEnq(p) \/ PRet(p)
         \/ WStop \/ WTimer \/ WDeq \/ WAppend \/ WDrainEmpty \/ WExpLock \/ (\E o \in Outcomes : WExpEnd(o))
         \/ \E f \in Flushers : FCall(f) \/ FCheck(f) \/ FEnq(f) \/ FWaitStop(f) \/ FWaitFlushed(f) \/ FWaitCtx(f)
                                \/ HExpLock(f) \/ (\E o \in Outcomes : HExpEnd(f, o)) \/ FExpDone(f) \/ FExpCtx(f) \/ FRet(f)
-        \/ \E s \in Stoppers : SCall(s) \/ SSet(s) \/ SWait(s) \/ SCtx(s) \/ SOnceWait(s) \/ SRet(s)
+        \/ \E s \in Stoppers : SCall(s) \/ SOnce(s) \/ SSet(s) \/ SWait(s) \/ SCtx(s) \/ SOnceWait(s) \/ SRet(s)
         \/ HClose \/ HWait
         \/ \E c \in Callers : CtxExpire(c)
 
@@ -277,7 +283,7 @@ Fairness == /\ WF_vars(WStop \/ WDeq \/ WAppend \/ WDrainEmpty \/ WExpLock \/ (\
             /\ \A f \in Flushers : WF_vars(FCheck(f) \/ FEnq(f) \/ FWaitStop(f) \/ FWaitFlushed(f) \/ FWaitCtx(f)
                                            \/ FExpDone(f) \/ FExpCtx(f) \/ FRet(f))
             /\ \A f \in Flushers : WF_vars(HExpLock(f) \/ (\E o \in Outcomes : HExpEnd(f, o)))
-            /\ \A s \in Stoppers : WF_vars(SSet(s) \/ SWait(s) \/ SCtx(s) \/ SOnceWait(s) \/ SRet(s))
+            /\ \A s \in Stoppers : WF_vars(SOnce(s) \/ SSet(s) \/ SWait(s) \/ SCtx(s) \/ SOnceWait(s) \/ SRet(s))
             /\ WF_vars(HClose \/ HWait)
 Spec == Init /\ [][Next]_vars
 FairSpec == Spec /\ Fairness
@@ -325,6 +331,6 @@ Stuck == (~ENABLED Next) => AllDone
 Termination == /\ \A p \in Producers : (pc[p] = "check") ~> (pc[p] = "idle")
                /\ \A f \in Flushers : (pc[f] = "check") ~> (pc[f] = "done")
                /\ \A f \in Flushers : (hx[f] = "lock") ~> (hx[f] = "done")
-               /\ \A s \in Stoppers : (pc[s] \in {"set", "oncewait"}) ~> (pc[s] = "done")
+               /\ \A s \in Stoppers : (pc[s] \in {"once", "set", "oncewait"}) ~> (pc[s] = "done")
                /\ (hs = "close") ~> (hs = "done")
 =============================================================================
